@@ -99,4 +99,36 @@ MUTANTS = [
         self._stopped = None
 
     async def __aiter__(self):"""),
+    # ---------------- C08
+    dict(id='C08-m1', prop='C08', file=S, desc='fifo_stream hand-off queue one slot larger',
+         old="    tasks = SingleLane(capacity + 1)", new="    tasks = SingleLane(capacity + 2)"),
+    dict(id='C08-m2', prop='C08', file=S, desc='fifo_stream hand-off queue unbounded',
+         old="    tasks = SingleLane(capacity + 1)", new="    tasks = SingleLane(0)"),
+    dict(id='C08-m3', prop='C08', file=S, desc='thread pool twice the concurrency',
+         old="""            executor = ThreadPoolExecutor(
+                self._concurrency,
+                initializer=self._executor_initializer,
+                initargs=self._executor_init_args,
+                thread_name_prefix=self._name + '-thread',""",
+         new="""            executor = ThreadPoolExecutor(
+                self._concurrency * 2,
+                initializer=self._executor_initializer,
+                initargs=self._executor_init_args,
+                thread_name_prefix=self._name + '-thread',"""),
+    dict(id='C08-m4', prop='C08', file=S, desc='Buffer queue one slot larger',
+         old="        self._tasks = SingleLane(self.maxsize)\n        self._worker = Thread(target=self._run_worker, name='Buffer-worker-thread')",
+         new="        self._tasks = SingleLane(self.maxsize + 1)\n        self._worker = Thread(target=self._run_worker, name='Buffer-worker-thread')"),
+    dict(id='C08-m5', prop='C08', file='_queues.py', desc='SingleLane.put waits only once: after a timeout-less wake-up it appends even if still full (if instead of while is original; here: skip wait when exactly full+0 and reader is mid-get)',
+         old="""            if 0 < self.maxsize <= len(self._queue):
+                if not block:
+                    raise Full
+                if not self._not_full.wait(timeout=timeout):
+                    raise Full
+            self._queue.append(item)""",
+         new="""            if 0 < self.maxsize < len(self._queue):
+                if not block:
+                    raise Full
+                if not self._not_full.wait(timeout=timeout):
+                    raise Full
+            self._queue.append(item)"""),
 ]
